@@ -1,8 +1,7 @@
 (* The odd/even backslash-run bit trick (m0_mask of advance_string_default / _validate, get_string_maskx64,
    skip_string_fast), written generically in the word width w and checked against the sequential definition
-   of "escaped position" by a complete sweep for w = 14 (all 2^14 backslash masks x both carries).
-   The shipped code uses w = 32 and w = 64: for those widths the equality is only tied by the correspondence run
-   (m0_mask_spec at full width is NOT proved). *)
+   of "escaped position" in M0MaskList.v (bit lists, every even width) and M0MaskWord.v (these N-level expressions have
+   the bits of the ripple reading; m0_mask_spec for every even w <= 64, in particular 32 and 64). *)
 From Coq Require Import List NArith Bool Arith Lia.
 Import ListNotations.
 Open Scope N_scope.
@@ -26,34 +25,3 @@ Definition m0_mask (m1 cr : N) : N * N :=
   (N.land fe (N.lxor es EVEN), cr').
 End Width.
 
-(* sequential definition on the bits of the backslash mask, least significant first: position i is escaped iff
-   the byte before it is an unescaped backslash; returns the escaped positions that are not backslashes
-   themselves (the only ones m0 &= ~escaped can matter for) and the pending escape at the end *)
-Fixpoint seq_escaped (n : nat) (m1 : N) (i : N) (esc : bool) : N * bool :=
-  match n with
-  | O => (0, esc)
-  | S n' =>
-      let bs := N.testbit m1 i in
-      let '(rest, out) := seq_escaped n' m1 (i + 1) (if bs then negb esc else false) in
-      ((if esc && negb bs then N.lor rest (N.shiftl 1 i) else rest), out)
-  end.
-
-Definition check14 (m1 cr : N) : bool :=
-  let '(e, c) := m0_mask 14 m1 cr in
-  let '(se, sc) := seq_escaped 14 m1 0 (cr =? 1) in
-  (N.ldiff e m1 =? se) && (c =? (if sc then 1 else 0)).
-
-Definition all14 : list N := map N.of_nat (seq 0 (N.to_nat 16384)).
-
-Lemma sweep14 : forallb (fun m => check14 m 0 && check14 m 1) all14 = true.
-Proof. vm_compute. reflexivity. Qed.
-
-(* for the 14-bit version of the algorithm: every backslash mask, both carries *)
-Theorem m0_mask_spec_w14_partial : forall m1 cr, m1 < 16384 -> cr < 2 -> check14 m1 cr = true.
-Proof.
-  intros m1 cr Hm Hc.
-  assert (In m1 all14).
-  { unfold all14. rewrite <- (N2Nat.id m1). apply in_map. apply in_seq. split; [lia|]. cbn [Nat.add]. lia. }
-  pose proof (proj1 (forallb_forall _ _) sweep14 m1 H) as P. apply andb_true_iff in P.
-  assert (cr = 0 \/ cr = 1) as [-> | ->] by lia; tauto.
-Qed.
